@@ -199,7 +199,7 @@ def mt_hygiene(tier, seed, res):
             f.write("\n".join(lines) + "\n")
         try:
             a = subprocess.run([harness, path], stdout=subprocess.PIPE, stderr=subprocess.PIPE, text=True, timeout=75,
-                               env=dict(os.environ, ASAN_OPTIONS="detect_leaks=1:abort_on_error=0"))
+                               env=dict(os.environ, ASAN_OPTIONS="detect_stack_use_after_return=1:detect_leaks=1:abort_on_error=0"))
             return job, a.stdout, a.stderr, a.returncode
         except subprocess.TimeoutExpired:
             return job, "", "TIMEOUT", -9
@@ -258,7 +258,7 @@ def run_mt(lines):
     fd, path = tempfile.mkstemp(suffix=".scn", dir=l1.SCRATCH)
     with os.fdopen(fd, "w") as f:
         f.write("\n".join(lines) + "\n")
-    env = dict(os.environ, ASAN_OPTIONS="detect_leaks=1")
+    env = dict(os.environ, ASAN_OPTIONS="detect_stack_use_after_return=1:detect_leaks=1")
     try:
         a = subprocess.run([os.path.join(common.BUILD, "mt_h"), path], stdout=subprocess.PIPE, stderr=subprocess.PIPE, text=True, timeout=75, env=env)
         return a.stdout, a.stderr, a.returncode
@@ -268,16 +268,45 @@ def run_mt(lines):
         os.unlink(path)
 
 
+PUMP_RULE = ("; plus C17's pump scenario programs (quick: 160; all four modes incl. a failing splice probe) judged by the resource-accounting part of "
+             "C17's oracle (buffers held or cached, two pipe descriptors per buffer, nothing alive after the thread's tear-down)")
 TRYFAIL_RULE = ("; plus the ENUMERATED family 'tryfail' (vlib/loopgen.py retract_cases, 128 scenarios + 24 'reregister'): iv_fd_register_try fails, the caller "
                 "frees the object or the descriptor number comes to life for another object, then earlier descriptors are unregistered (table "
                 "compaction) right away or from a timer; the library must not touch the released object")
+
+
+PUMP_LEAK = re.compile(r"accounting|still alive|buffers cached", re.I)
+
+
+def pump_hygiene(tier, seed, res):
+    """iv_fd_pump acquires buffers and (splice mode) pipe descriptors per thread: C17's scenario programs (all four modes incl. a failing
+    splice probe) are run and the resource-accounting part of C17's oracle — every buffer is held by a pump or cached, two descriptors per
+    buffer, nothing alive after the thread's tear-down — is reported here"""
+    from . import c17
+    ok, log = c17.build()
+    if not ok:
+        res.divergences.append(("pump harness no longer builds: " + log[-300:], None))
+        return
+    n = 0
+    for name, ops, *_ in c17.gen_cases(tier, seed):
+        n += 1
+        if n > (160 if tier == "quick" else 1500):
+            break
+        msg, a = c17.impl_fails(ops)
+        res.evaluations += 1
+        if msg and PUMP_LEAK.search(msg):
+            small, m2 = c17.shrink_impl(ops, msg)
+            res.impl_violations.append(("C18:pump:" + l1.norm_sig(m2), "hygiene (iv_fd_pump resources): " + m2,
+                                        common.write_case(PROP, "pump-" + name, ["# pump case (replayed by vlib/c17.py)"] + small, tier, seed, ext="ops")))
+            break
+    res.extra["pump_hygiene_cases"] = n
 
 
 def run(tier, seed, proof):
     def nontrivial(log):
         return log.count("LEDGER ") >= 2
     os.environ["IVY_DETECT_LEAKS"] = "1"
-    res = l1.run_property(PROP, tier, seed, proof, FAMILIES, [], SANS, nontrivial, RULE + TRYFAIL_RULE, n_quick=50, n_thorough=800,
+    res = l1.run_property(PROP, tier, seed, proof, FAMILIES, [], SANS, nontrivial, RULE + TRYFAIL_RULE + PUMP_RULE, n_quick=50, n_thorough=800,
                           extra_cases=lambda tier, seed: [c for c in loopgen.retract_cases(seed) if c[0].startswith(("tryfail", "reregister"))])
     # ledger oracle on the cycles family (re-run deterministically; cheap)
     per = 50 if tier == "quick" else 800
@@ -297,6 +326,8 @@ def run(tier, seed, proof):
     tls_check(tier, seed, res)
     if not res.impl_violations:
         mt_hygiene(tier, seed, res)
+    if not res.impl_violations:
+        pump_hygiene(tier, seed, res)
     # thread churn: the end-of-run ledger must not depend on how many threads came and went
     ok, log = common.build_mt()
     if not ok:
@@ -337,12 +368,15 @@ def replay(path):
         msg = tls_oracle(ops, [x.rstrip() for x in a.stdout.splitlines()])
         print("--- layout oracle:", msg or "ok")
         return 1 if (msg or a.returncode != 0) else 0
+    if "# pump case" in open(path).read():
+        from . import c17
+        return c17.replay(path)
     first = open(path).read().splitlines()
     hline = next((l for l in first if l.startswith("# harness ")), None)
     if hline:
         import importlib, subprocess
         mod = importlib.import_module("vlib." + hline.split()[2]); mod.build()
-        a = subprocess.run([mod.HARNESS, path], stdout=subprocess.PIPE, stderr=subprocess.PIPE, text=True, env=dict(os.environ, ASAN_OPTIONS="detect_leaks=1:abort_on_error=0"))
+        a = subprocess.run([mod.HARNESS, path], stdout=subprocess.PIPE, stderr=subprocess.PIPE, text=True, env=dict(os.environ, ASAN_OPTIONS="detect_stack_use_after_return=1:detect_leaks=1:abort_on_error=0"))
         print(a.stdout[-2500:], a.stderr[-2500:])
         m = re.findall(r"LEDGER-\w+ fds=\d+ heap=\d+ leaks=(\d+)", a.stdout)
         return 1 if (a.returncode != 0 or (m and m[-1] != "0")) else 0
